@@ -328,7 +328,7 @@ func (r *srvRun) next(what string) ([]byte, error) {
 			idle = 0 // something is still runnable inside the library: keep waiting
 		}
 		if idle >= idlePolls {
-			return nil, fmt.Errorf("%s: the server has read the whole stream and is idle, but only %d of %d requests were answered (not answered, leaving aside requests the implementation still holds:%s)\ngoroutines blocked inside go9p:\n%s", what, len(r.replies), len(r.b.preds), r.missing(), hx.BlockedInGo9p())
+			return nil, fmt.Errorf("%s: the server has read the whole stream and is idle, but only %d of %d requests were answered (not answered, leaving aside requests the implementation still holds:%s); every goroutine of the library is blocked and its receive loop waits for more bytes", what, len(r.replies), len(r.b.preds), r.missing())
 		}
 		if time.Since(start) > hangAfter {
 			return nil, hangErr(fmt.Sprintf("%s: %d of %d replies after %v", what, len(r.replies), len(r.b.preds), hangAfter))
